@@ -29,18 +29,18 @@ def class_a():
 
 def gen_jobs(rng, quick):
     jobs = []
-    per = 3 if quick else 40
+    per = 4 if quick else 40
     for p in PLANNERS:
         for k in range(per):
             sp = SPACES[k % len(SPACES)] if k < len(SPACES) else rng.choice(SPACES)
             env = ENVS[k % len(ENVS)] if k < len(ENVS) else rng.choice(ENVS)
-            if quick: sp, env = [("R2", "gap"), ("SE2", "thin"), ("R3", "boxes3")][k]
+            if quick: sp, env = [("R2", "gap"), ("SE2", "thin"), ("R3", "boxes3"), ("R2", "blocked")][k]
             q = rng.randint(0, 3)
             rngv = rng.choice([0, 0, 0.05, 0.3, 1.5])
             res = rng.choice([0.01, 0.01, 0.02, 0.005])
             thr = rng.choice([0.05, 0.0, 0.01, 0.2]) if not quick else 0.05
             seed = rng.randint(1, 10 ** 6)
-            secs = (0.4 if quick else 1.0) if p in ANYTIME else 2.0
+            secs = (0.4 if quick else 1.0) if p in ANYTIME else (0.5 if (quick and env == "blocked") else 2.0)
             iters = 20000 if p in ANYTIME else 200000
             jobs.append("RUN %s %s %s %d %g %g %g %d %d %g" % (p, sp, env, q, rngv, res, thr, seed, iters, secs))
         # EIT* with non-default sparse collision checks on thin walls (documented, user-settable)
@@ -95,7 +95,6 @@ def predicate(d, classA, sym, tol=1):
     last = P[-1]
     if s["approx"]:
         if s["code"] != 5: return "approximate flag set but status is %d" % s["code"]
-        if last["goal"]: return "solution flagged approximate although its last state satisfies the goal"
         if abs(s["diff"] - last["gdist"]) > tol: return "reported goal difference %g differs from the last state's goal distance %g" % (s["diff"] / 1e9, last["gdist"] / 1e9)
     else:
         if s["code"] != 6: return "exact solution held but status is %d" % s["code"]
